@@ -27,7 +27,25 @@ META = dict(
          "bases, and runs shaped like the call sites (obiclean all-pairs with bound = step, long runs of 300+ calls through one "
          "buffer over families of 50-500 bases with bounds 1-10, the shrinking-bound candidate loop of obitag) against independent "
          "oracles (full matrix; certified band; bit-parallel LCS), and the Coq model and the two Coq references are evaluated by "
-         "vm_compute on the same small cases (same stale buffer words).",
+         "vm_compute on the same small cases (same stale buffer words). Round 3: FastLCSEGFScoreByte is also called directly on raw "
+         "bytes (upper / mixed case - the only way to reach the case folding of _samenuc, BioSequence stores lower case -, every pair of "
+         "letters of either case, bytes around the letter ranges and above 127) in both modes with scratch buffers of chosen capacity "
+         "(one word short of, equal to, above 2*width), length (0 .. capacity) and stale content (zeros, all-ones, the largest in-band "
+         "word), judged by the full-matrix oracle on the case-folded sequences and by the model from the same buffer; pairs with length "
+         "ratio > 3 in both argument orders with no bound and bounds around the length difference, and plain sequences against copies "
+         "carrying compatible-but-different IUPAC codes (u for t, ambiguity codes) at the bounds 0, 1, 2, are generated at every size; "
+         "decodeValues and the caller-less accessors _isout / _lpath run on chosen words against the layout. New theorems for all inputs: "
+         "C09_samenuc_all_bytes (_samenuc on every pair of byte values), C09_case_insensitive (kernel and reference do not see the case), "
+         "C09_pack_accessors, and the relation between the two kernels the callers rely on when they switch to D1Or0 at the bounds 0 and "
+         "1: C09_shortcut_sound (IUPAC sequences: D1Or0 never under-estimates), C09_shortcut_exact / C09_shortcut_kernel_plain (sequences "
+         "over a,c,g,t: D1Or0's verdict d gives exactly FastLCSScore's answer (L-d, L) within the bound and 'beyond' otherwise), "
+         "C09_shortcut_ambiguity_witness (the agreement fails on ambiguity codes); the bounds the doc comment misdescribes: C09_bound0_spec "
+         "(bound 0 = same length and symbol-by-symbol IUPAC match), C09_bound1_spec / C09_ref_one_difference (bound 1 = that, or one "
+         "substituted / deleted / inserted symbol with everything else matching: inductive definition, no DP), C09_negative_bound (every "
+         "bound below -1 answers 'not found'); and C09_no_panic: the kernel rewritten with checked slice accesses (None = Go's index out of "
+         "range) always answers Some of what the model answers - no access out of range for any sequences, bound, mode, buffer content "
+         "and capacity, and the default 0 of the model's unchecked reads is never used; C09_d1or0_no_panic: the same for D1Or0 written with its two index "
+         "loops and checked reads (it equals the list-level model lcp / sfx of C09_d1or0_exact).",
     note="Trusted: Coq kernel + vm_compute; harness and generators; the Python oracles. Side condition of C09_band_cells/_exact: "
          "|a|+|b| <= 30000 (no field of the 16-bit packed word wraps; the code has the limit implicitly; same for C09_egf_cells/_exact). "
          "The full-matrix Python oracles that judge the long sequences are tied to the two Coq references (lcs_ref, lcs_ref_egf) by "
@@ -35,10 +53,27 @@ META = dict(
          "FastLCSEGFScore has no caller in the code base. Beyond the bound the property accepts 'not found' and any beyond-bound pair alike, so the correspondence "
          "compares answers after that projection (Corr.v). The third result of FastLCSEGFScore (end position) is modelled (and "
          "proved buffer-independent) but neither specified nor compared with the code: the property does not speak about it and it "
-         "depends on the order in which equally good cells are met.")
+         "depends on the order in which equally good cells are met. "
+         "Outside the property (leads of round 3): (1) obitag / obitag2 / obirefidx call D1Or0 instead of FastLCSScore once their bound has "
+         "shrunk to 0 or 1; on a reference carrying an ambiguity code the byte comparison of D1Or0 counts one difference where FastLCSScore "
+         "counts none (acgtacgtac / acgtncgtac, bound 1: FastLCSScore (10,10), D1Or0 1; reproduced on every run in coverage."
+         "outside_property_shortcut and proved as C09_shortcut_ambiguity_witness): each kernel does what the property says of it, the "
+         "inconsistency is in the callers' choice (obitag's property); C09_shortcut_kernel_plain proves the shortcut exact on a,c,g,t. "
+         "(2) the doc comment of FastLCSScore / FastLCSEGFScore says 'if maxError > 0 ... otherwise no error checking' but only -1 means no "
+         "bound: 0 is a real bound (as the property wants) and a bound below -1 answers 'not found' (generated: bounds -2, -7). "
+         "(3) the band is about four times wider than the bound needs and the in-band flag of interior cells is never cleared: "
+         "C09_band_cells holds for any band parameter, so this costs time, not exactness; a stale or zero word that is read would be "
+         "toxic (_incpath(0) wraps to the largest word) - C09_buffer_independent proves none is read and the adversarial buffers test it. "
+         "Not exercised: nothing of the three anchored kernel files (fastlcs.go, fastlcsegf.go, is_d0_or_d1.go: every statement is "
+         "executed by the quick tier) - _isout and _lpath have no caller in the code base and are run through the hook verif3_c09.go. "
+         "The two anchored call sites (obiclean/graph.go extendSimilarityGraph, obitag/obitag.go FindClosests) are not executed by this "
+         "check, because they are the harnessed core of the obiclean and obitag properties: here their call patterns (all pairs with "
+         "bound = step through one buffer per worker; the shrinking bound with the D1Or0 shortcut at 0 and 1, also against references "
+         "carrying ambiguity codes) are replayed by the harness against the real kernels and every single call is judged.")
 TRUSTED = ["field widths of the packed word (wsize = 16, re-proved against the build on every run): C09_band_exact assumes |a|+|b| <= 30000 "
            "so that no field overflows and _notavail/_out (length 30000) stay worse than every real cell",
-           "hook pkg/obialign/verif2_c09.go returns the real _iupac / wsize / dwsize / _empty / _out / _notavail / encodeValues / decodeValues"]
+           "hook pkg/obialign/verif2_c09.go returns the real _iupac / wsize / dwsize / _empty / _out / _notavail / encodeValues / decodeValues",
+           "hook pkg/obialign/verif3_c09.go calls the real _isout / _lpath"]
 
 # IUPAC nucleotide codes as sets of bases (NC-IUB 1984), written independently of the code's table
 IUPAC_SETS = dict(a="a", c="c", g="g", t="t", u="t", r="ag", y="ct", s="cg", w="at", k="gt", m="ac",
@@ -243,19 +278,22 @@ def tables_source(t):
         return "[" + "; ".join(str(x) for x in l) + "]"
     enc = "; ".join("(%d, %d, %s, %d)" % (e[0], e[1], "true" if e[2] else "false", e[3]) for e in t["enc"])
     dec = "; ".join("(%d, (%d, %d, %s))" % (e[0], e[1], e[2], "true" if e[3] else "false") for e in t["dec"])
+    acc = "; ".join("(%d, %s, %d)" % (e[0], "true" if e[1] else "false", e[2]) for e in t.get("acc", []))
     return ("(** GENERATED by tools/props/c09.py regen() from the CURRENT build (vh c09, case {\"kind\":\"tables\"}; hook\n"
             "    pkg/obialign/verif2_c09.go). Do not edit.\n"
             "    iupac_tab    : obialign._iupac (one set of bases per letter a..z);\n"
             "    wsize_gen, dwsize_gen : the constants wsize, dwsize of fastlcs.go;\n"
             "    empty_gen, out_gen, notavail_gen : the words _empty, _out, _notavail;\n"
             "    enc_samples  : (score, length, out, encodeValues(score, length, out));\n"
-            "    dec_samples  : (word, decodeValues(word)). *)\n"
+            "    dec_samples  : (word, decodeValues(word));\n"
+            "    acc_samples  : (word, _isout(word), _lpath(word)) (hook verif3_c09.go). *)\n"
             "From Coq Require Import NArith List.\nImport ListNotations.\nOpen Scope N_scope.\n\n"
             "Definition iupac_tab : list N := %s.\n\nDefinition wsize_gen : N := %d.\nDefinition dwsize_gen : N := %d.\n\n"
             "Definition empty_gen : N := %d.\nDefinition out_gen : N := %d.\nDefinition notavail_gen : N := %d.\n\n"
             "Definition enc_samples : list (N * N * bool * N) := [%s].\n\n"
-            "Definition dec_samples : list (N * (N * N * bool)) := [%s].\n" % (
-                nl(t["iupac"]), t["wsize"], t["dwsize"], t["empty"], t["out"], t["notavail"], enc, dec))
+            "Definition dec_samples : list (N * (N * N * bool)) := [%s].\n\n"
+            "Definition acc_samples : list (N * bool * N) := [%s].\n" % (
+                nl(t["iupac"]), t["wsize"], t["dwsize"], t["empty"], t["out"], t["notavail"], enc, dec, acc))
 
 
 def dump_tables(ctx):
@@ -395,6 +433,51 @@ def rand_pair(rng, maxlen):
     return a, b
 
 
+def ratio_pair(rng, maxlen):
+    """Extreme length ratio: the long sequence is more than three times the short one (0..maxlen/4 symbols); the short one
+    is a scattered subsequence of the long one, a mutated window of it, or unrelated. Either argument order (the default
+    bound of an unbounded call and the band geometry must not depend on which argument is the long one)."""
+    ls = rng.choice([0, 1, 1, 2, 3]) if rng.random() < 0.4 else rng.randrange(0, max(2, maxlen // 4))
+    ll = rng.randrange(3 * ls + 1, max(3 * ls + 2, maxlen + 1))
+    alpha = "acgt" if rng.random() < 0.6 else ("acgt" * 4 + ALPHA_IUPAC)
+    long_ = "".join(rng.choice(alpha) for _ in range(ll))
+    k = rng.random()
+    if k < 0.4:
+        idx = sorted(rng.sample(range(ll), min(ls, ll)))
+        short = "".join(long_[i] for i in idx)
+    elif k < 0.8:
+        st = rng.randrange(0, ll - ls + 1)
+        short = mutate(rng, long_[st:st + ls], rng.choice([0, 0, 1, 2]), alpha)[:max(0, (ll - 1) // 3)]
+    else:
+        short = "".join(rng.choice(alpha) for _ in range(ls))
+    return (short, long_) if rng.random() < 0.5 else (long_, short)
+
+
+AMBIG_FOR = {x: [c for c, v in IUPAC_SETS.items() if x in v and c != x] for x in "acgt"}      # codes compatible with a base
+
+
+def iupac_pair(rng, maxlen):
+    """A plain sequence against a copy in which some bases are replaced by a DIFFERENT but compatible IUPAC code (u for t,
+    an ambiguity code containing the base), plus 0..2 true edits: the LCS kernel sees 0..2 differences where a byte
+    comparison (D1Or0) sees more - judged at the bounds 0, 1, 2."""
+    la = rng.randrange(1, maxlen + 1)
+    a = [rng.choice("acgt") for _ in range(la)]
+    b = list(a)
+    for k in rng.sample(range(la), min(la, rng.choice([1, 1, 2, 3, 5]))):
+        b[k] = rng.choice(AMBIG_FOR[a[k]])
+        if rng.random() < 0.2:      # both sides ambiguous, still compatible
+            a[k] = rng.choice([c for c in AMBIG_FOR[a[k]] if same(c, b[k])])
+    b = mutate(rng, "".join(b), rng.choice([0, 0, 1, 1, 2]), "acgt")
+    a = "".join(a)
+    return (a, b) if rng.random() < 0.5 else (b, a)
+
+
+def bounds_small(rng, a, b, ref):
+    e = ref[1] - ref[0]
+    d = abs(len(a) - len(b))
+    return sorted({-1, 0, 1, 2, e, d} | ({-2, -7} if rng.random() < 0.1 else set()))
+
+
 def bounds_for(rng, a, b, ref, n_extra=3):
     e = ref[1] - ref[0]
     d = abs(len(a) - len(b))
@@ -412,6 +495,15 @@ CORPUS = [("", ""), ("a", ""), ("", "a"), ("a", "a"), ("a", "c"), ("ac", "ca"), 
 
 
 CORPUS += [(x, y) for x in ALPHA_IUPAC for y in ALPHA_IUPAC if x < y]      # every pair of IUPAC codes
+
+# round 3: extreme length ratios (the short one first and second; the mirror is added by with_sym), compatible-but-different
+# IUPAC symbols at the bounds 0 / 1, u against t inside a sequence
+CORPUS_RATIO = [("", "acgtacgtac"), ("a", "acgtacgtacgt"), ("t", "acgacgacgacg"), ("ac", "acgtgacgtaacgt"), ("ac", "ggggggggtttt"),
+                ("acg", "tacgtacgtacgta"), ("acgt", "acgtacgtacgtacgtacgt"), ("gt", "acacacacacacgt"), ("n", "acgtacgtac"),
+                ("ca", "acgtacgtacgtacgt"), ("aaa", "aaaaaaaaaaaaaaaa"), ("acgtac", "acgtacgtacgtacgtacgtacgtacgtacgtacgt")]
+CORPUS_IUPAC01 = [("acgtacgt", "acgnacgt"), ("acgtacgt", "acgtacgu"), ("ucgtacgt", "tcgtacgu"), ("acgtacgt", "rcgtacgy"),
+                  ("acgtacgt", "acntacg"), ("acgtacgt", "acgtnacgt"), ("acgnacgt", "acgracgt"), ("aaaa", "nnnn"), ("acgt", "mssk"),
+                  ("acgtacgt", "acgbacgt"), ("acgtacgt", "ncgtacgn"), ("acgtacgtt", "ncgtacgn"), ("acgwacgt", "acgsacgt")]
 
 
 # ------------------------------------------------------------------ Coq rendering
@@ -467,6 +559,200 @@ def coq_terms(c, o):
         ts.append("CR %s %s false %s %s" % (a, b, zt(r[0]), zt(r[1])))
         ts.append("CR %s %s true %s %s" % (a, b, zt(er[0]), zt(er[1])))
     return ts
+
+
+# ------------------------------------------------------------------ byte-level entry point, scratch buffers, accessors (round 3)
+M64 = (1 << 64) - 1
+BEST_WORD = (1 << 32) | (0xFFFF << 16) | 0xFFFE          # in band, score 65535, length 0: wins every max() if it is ever read
+PATTERNS = [[0], [M64], [BEST_WORD], [1 << 32], [0xFFFFFFFF], [0, M64], [BEST_WORD, 0, 1], [(1 << 32) | 0xFFFE, 0xFFFE]]
+
+
+def fold(bs):
+    """what _samenuc compares: ASCII upper case folded to lower case, every other byte value unchanged (latin-1 string)"""
+    return "".join(chr(x | 32) if 65 <= x <= 90 else chr(x) for x in bs)
+
+
+def band_width(la, lb, m, egf):
+    """number of words of one row of the kernel (None: the call answers before touching the buffer)"""
+    la, lb = max(la, lb), min(la, lb)
+    if m == -1:
+        m = 2 * la
+    delta = la - lb
+    if egf:
+        m += delta
+    if delta > m:
+        return None
+    extra = m - delta + 1
+    return 2 * (1 + delta + 2 * extra) - 1
+
+
+def buf_specs(rng, la, lb, ms, n):
+    """n scratch buffers around the capacity limit 2*width of one of the calls: one word short (replaced by the kernel),
+    exact, one more, the 3*width the kernel allocates itself, larger; length 0, width or the whole capacity; stale content
+    from PATTERNS."""
+    out = []
+    for _ in range(n):
+        w = band_width(la, lb, rng.choice(ms), rng.random() < 0.5)
+        if w is None:
+            cap = rng.randrange(0, 40)
+        else:
+            cap = rng.choice([2 * w - 1, 2 * w, 2 * w, 2 * w + 1, 3 * w, 2 * w + rng.randrange(0, 50), max(0, w - 1), w])
+        ln = rng.choice([0, cap, cap, min(cap, w or 0)])
+        out.append(dict(len=ln, cap=cap, pat=rng.choice(PATTERNS)))
+    return out
+
+
+SPECIAL_BYTES = [0, 45, 46, 42, 64, 91, 96, 123, 127, 128, 193, 225, 255, 32, 10]     # '@' '[' '`' '{' around the letter ranges, high bytes
+
+
+def recase(rng, s):
+    """the bytes of s with random upper-casing of its letters and now and then a byte that is no letter"""
+    out = []
+    for ch in s:
+        x = ord(ch)
+        if 97 <= x <= 122 and rng.random() < 0.5:
+            x -= 32
+        out.append(x)
+    if out and rng.random() < 0.25:
+        for _ in range(rng.choice([1, 1, 2])):
+            out[rng.randrange(len(out))] = rng.choice(SPECIAL_BYTES)
+    return out
+
+
+BYTE_CORPUS = [("ACGT", "acgt"), ("AcGt", "aCgT"), ("N", "a"), ("R", "g"), ("R", "c"), ("V", "C"), ("V", "T"), ("U", "t"), ("Z", "Z"), ("Z", "z"),
+               ("z", "z"), ("@", "@"), ("@", "`"), ("[", "["), ("[", "{"), ("`", "`"), ("{", "{"), ("A", "a"), ("A", "A"), ("a", "A"),
+               ("\x80", "\x80"), ("\xc1", "\xe1"), ("\xc1", "\xc1"), ("\x00", "\x00"), ("\x00", "a"), ("\xff", "\xff"), ("A\x00C", "a\x00c"),
+               ("ACGTACGTAC", "acgtacgtac"), ("ACGTNACGT", "acgtacgt"), ("AC-GT", "ac-gt"), ("AC-GT", "AC.GT"), ("acGTacgtAC", "ACgtaCGgtac"),
+               ("A", "ACGTACGTACGT"), ("acgtacgtacgt", "G"), ("", "ACGT"), ("ACGU", "acgt"), ("MRWSYK", "acgtac"), ("Aa", "aA")]
+
+
+def gen_byte(rng, quick):
+    """cases of kind 'byte' + which of them go to the Coq model"""
+    cases = []
+    for a, b in BYTE_CORPUS:
+        ba, bb = [ord(c) for c in a], [ord(c) for c in b]
+        ref = dp(fold(ba), fold(bb))
+        ms = bounds_small(rng, ba, bb, ref)
+        cases.append(dict(kind="byte", ba=ba, bb=bb, ms=ms, bufs=buf_specs(rng, len(ba), len(bb), ms, 2), cls="byte:corpus", coq=True))
+    # every pair of letters, either case, as one-symbol sequences (nil buffer only)
+    letters = list(range(65, 91)) + list(range(97, 123))
+    coq_pick = set(rng.sample(range(len(letters) ** 2), 150))
+    for i, x in enumerate(letters):
+        for j, y in enumerate(letters):
+            cases.append(dict(kind="byte", ba=[x], bb=[y], ms=[-1, 0], bufs=[], cls="byte:letter-pairs",
+                              coq=(i * len(letters) + j in coq_pick) or (x | 32) == (y | 32)))
+    for k in range(150 if quick else 3000):
+        r = rng.random()
+        small = k < (60 if quick else 400)
+        mx = rng.choice([4, 8, 12]) if small else rng.choice([20, 40, 80])
+        if r < 0.5:
+            a, b = rand_pair(rng, mx)
+        elif r < 0.75:
+            a, b = iupac_pair(rng, mx)
+        else:
+            a, b = ratio_pair(rng, mx if small else 60)
+        ba, bb = recase(rng, a), recase(rng, b)
+        ref = dp(fold(ba), fold(bb))
+        ms = bounds_small(rng, ba, bb, ref) if small else bounds_for(rng, ba, bb, ref, 1)
+        if small and len(ms) > 3:
+            ms = sorted(rng.sample(ms, 3))
+        cases.append(dict(kind="byte", ba=ba, bb=bb, ms=ms, bufs=buf_specs(rng, len(ba), len(bb), ms, 2 if small else 3),
+                          cls="byte:random-small" if small else "byte:random", coq=small))
+    return cases
+
+
+def eval_byte(ctx, cases, obs, stats, label="byte"):
+    """Direct oracle of the byte-level calls: every call (nil buffer or any described buffer) must give the reference pair of
+    the case-folded sequences within the bound and nothing within the bound beyond it; the three results must not depend
+    on the scratch buffer."""
+    nviol = 0
+    for i, (c, o) in enumerate(zip(cases, obs)):
+        w = None
+        if o.get("kind") == "crash":
+            w = "harness crash"
+        else:
+            fa, fb = fold(c["ba"]), fold(c["bb"])
+            refs = (dp(fa, fb), dp(fa, fb, egf=True))
+            nil = {}
+            for m, ie, k, s, l, e in o["r"]:
+                stats["evals"] += 1
+                if k == -1:
+                    nil[(m, ie)] = (s, l, e)
+                elif (s, l, e) != nil.get((m, ie)):
+                    w = w or "%s bound %d: nil buffer %s, buffer %s gives %s" % (("FastLCSScore", "FastLCSEGFScore")[ie], m, nil.get((m, ie)), c["bufs"][k], (s, l, e))
+                x = check_lcs(refs[ie], m, s, l)
+                if x:
+                    w = w or "%s (bytes) bound %d, buffer %s: %s" % (("FastLCSScore", "FastLCSEGFScore")[ie], m, "nil" if k == -1 else c["bufs"][k], x)
+                kind = c["cls"] + (":within" if (m == -1 or refs[0][1] - refs[0][0] <= m) else ":beyond")
+                if ie == 0 and k == -1:
+                    stats["dist"][kind] = stats["dist"].get(kind, 0) + 1
+        if w:
+            nviol += 1
+            if nviol <= 2:
+                ctx.violation("%s_%d" % (label, i), dict(property="C09", kind="byte-call", what=w,
+                                                         case=dict(kind="byte", ba=c["ba"], bb=c["bb"], ms=c["ms"], bufs=c["bufs"]),
+                                                         folded=dict(a=fold(c["ba"]), b=fold(c["bb"])),
+                                                         implementation=dict(r=o.get("r")),
+                                                         expected=None if o.get("kind") == "crash" else dict(lcs=dict(lcs=refs[0][0], alilength=refs[0][1]),
+                                                                                                           egf=dict(lcs=refs[1][0], alilength=refs[1][1]))))
+    return nviol
+
+
+def byte_terms(c, o):
+    ts = []
+    a, b = wlist(c["ba"]), wlist(c["bb"])
+    for m, ie, k, s, l, e in o["r"]:
+        if k == -1:
+            init = "[]"
+        else:
+            bs = c["bufs"][k]
+            if bs["cap"] > 1500:
+                continue
+            init = "(fillbuf %d %s)" % (max(bs["cap"], bs["len"]), wlist(bs["pat"]))
+        ts.append("CL %s %s %s %s %s %s %s %s" % (a, b, zt(m), "true" if ie else "false", init, zt(s), zt(l), zt(e)))
+    return ts
+
+
+def py_decode(w):
+    """fields of a packed word, written from the layout (bit 32 = in band; bits 16..31 score; bits 0..15 = -length-2)"""
+    return (w >> 16) & 0xFFFF, (0xFFFE - (w & 0xFFFF)) % 65536, ((w >> 32) & 1) == 0
+
+
+def gen_words(rng, quick):
+    ws = [0, 1, M64, M64 - 1, 1 << 32, (1 << 32) - 1, (1 << 32) + 1, 0xFFFF, 0xFFFE, 0x10000, 0xFFFF0000, BEST_WORD, 1 << 33, (1 << 33) - 1, 1 << 63]
+    for _ in range(200 if quick else 5000):
+        k = rng.random()
+        if k < 0.5:
+            sc, ln, out = rng.randrange(65536), rng.randrange(65535), rng.random() < 0.5
+            w = (sc << 16) | ((0xFFFE - ln) & 0xFFFF) | (0 if out else 1 << 32)
+            w = (w + rng.choice([0, 0, 1, -1, 1 << 16, -(1 << 16)])) & M64
+        elif k < 0.8:
+            w = rng.getrandbits(64)
+        else:
+            w = rng.getrandbits(34)
+        ws.append(w)
+    return ws
+
+
+def eval_words(ctx, ws, obs, stats):
+    nviol = 0
+    terms = []
+    if obs.get("kind") == "crash":
+        ctx.violation("words_crash", dict(property="C09", kind="words", what="harness crash", case=dict(kind="words", ws=ws[:5])))
+        return 1, terms
+    for w, r in zip(ws, obs["r"]):
+        stats["evals"] += 1
+        s, l, o = py_decode(w)
+        got = (r[1], r[2], bool(r[3]), bool(r[4]), r[5])
+        terms.append("CW %d %d %d %s %s %d" % (w, r[1], r[2], "true" if r[3] else "false", "true" if r[4] else "false", r[5]))
+        if got != (s, l, o, o, l):
+            nviol += 1
+            if nviol <= 2:
+                ctx.violation("words_%d" % w, dict(property="C09", kind="words", what="decodeValues / _isout / _lpath of the packed word %d" % w,
+                                                   case=dict(kind="words", ws=[w]), implementation=dict(score=r[1], length=r[2], out=bool(r[3]), isout=bool(r[4]), lpath=r[5]),
+                                                   expected=dict(score=s, length=l, out=o, isout=o, lpath=l)))
+    stats["dist"]["words"] = len(ws)
+    return nviol, terms
 
 
 # ------------------------------------------------------------------ evaluation
@@ -579,6 +865,12 @@ def gen_uses(rng, quick):
                 m = -1
             calls.append([i, j, m])
         cases.append(dict(kind="run", seqs=seqs, calls=calls))
+    # near the limit |a| + |b| <= 30000 of C09_band_exact / of the 16-bit fields: long similar sequences, small bounds
+    for _ in range(1 if quick else 6):
+        L = 14985 + rng.randrange(0, 10)
+        a = "".join(rng.choice("acgt") for _ in range(L))
+        seqs = [a, mutate(rng, a, 2, "acgt"), mutate(rng, a, 4, "acgt")]
+        cases.append(dict(kind="run", seqs=seqs, calls=[[0, 1, 2], [1, 0, 3], [0, 2, 3], [2, 1, 6]] if not quick else [[0, 1, 2], [2, 0, 4]]))
     # obitag.FindClosests: one query against candidates, the bound shrinking to the best score seen so far
     for _ in range(10 if quick else 80):
         L = rng.randrange(50, 501)
@@ -587,6 +879,13 @@ def gen_uses(rng, quick):
         other = family(rng, L + rng.randrange(-20, 21), 4)
         for o in other:
             refs.insert(rng.randrange(1, len(refs) + 1), o)
+        if rng.random() < 0.35:     # references carrying ambiguity codes compatible with the query (u for t, r for a or g, n, ...):
+            for k in rng.sample(range(len(refs)), min(len(refs), 6)):      # no difference for the LCS kernel, one per code for D1Or0
+                r = list(refs[k])
+                for pos in rng.sample(range(len(r)), min(len(r), rng.choice([1, 1, 2, 3]))):
+                    if r[pos] in AMBIG_FOR:
+                        r[pos] = rng.choice(AMBIG_FOR[r[pos]])
+                refs[k] = "".join(r)
         if rng.random() < 0.5:      # candidates in no particular order
             head, tail = refs[:1], refs[1:]
             rng.shuffle(tail)
@@ -755,6 +1054,7 @@ def run(ctx, broken):
     n_rand_big = 40 if ctx.quick else 500
     n_rand_mid = 400 if ctx.quick else 20000
     n_coq = 30 if ctx.quick else 500
+    classes = {}                 # generator classes -> number of generated pairs (before mirroring)
     nontriv = set()
     nontriv_count = [0]          # counted inside the exhaustive chunks (distinct by construction)
     sizes = {}
@@ -797,6 +1097,21 @@ def run(ctx, broken):
         if len(ms) > 3:
             ms = sorted(rng.sample(ms, 3))
         pm.append((a, b, ms))
+    classes["corpus"] = len(CORPUS)
+    classes["small:mixed"] = n_coq
+    # round 3: extreme length ratios / compatible-but-different IUPAC symbols at the bounds 0, 1, 2 (corpus, then random)
+    for a, b in CORPUS_RATIO + CORPUS_IUPAC01:
+        pm.append((a, b, bounds_small(rng, a, b, dp(a, b))))
+    classes["corpus:length-ratio>3"] = len(CORPUS_RATIO)
+    classes["corpus:iupac-compatible-at-bounds-0-1"] = len(CORPUS_IUPAC01)
+    for k in range(2 * (n_coq // 3)):
+        a, b = (ratio_pair if k % 2 else iupac_pair)(rng, rng.choice([8, 12, 16]))
+        ms = bounds_small(rng, a, b, dp(a, b))
+        if len(ms) > 3:
+            ms = sorted(rng.sample(ms, 3))
+        pm.append((a, b, ms))
+        key = "small:length-ratio>3" if k % 2 else "small:iupac-compatible"
+        classes[key] = classes.get(key, 0) + 1
     ccases = with_sym(pm)
     for c in ccases:
         c["dump"] = True
@@ -850,10 +1165,30 @@ def run(ctx, broken):
     pm = []
     for _ in range(n_rand_mid):
         a, b = rand_pair(rng, 60)
-        pm.append((a, b, bounds_for(rng, a, b, dp(a, b))))
+        ms = bounds_for(rng, a, b, dp(a, b))
+        if rng.random() < 0.05:      # a bound far above both lengths (band of thousands of diagonals around a small matrix)
+            ms.append(rng.choice([150, 1000]))
+            classes["random:bound>>lengths"] = classes.get("random:bound>>lengths", 0) + 1
+        pm.append((a, b, ms))
     for _ in range(n_rand_big):
         a, b = rand_pair(rng, 400)
         pm.append((a, b, bounds_for(rng, a, b, dp(a, b))))
+    classes["random:mixed<=60"] = n_rand_mid
+    classes["random:mixed<=400"] = n_rand_big
+    # round 3: the two new classes at mid size and up to 400 bases (the unbounded call on a 400-base sequence fills a band of
+    # 3200 diagonals: a few of them are enough)
+    for k in range(n_rand_mid // 2):
+        a, b = (ratio_pair if k % 2 else iupac_pair)(rng, 60)
+        ref = dp(a, b)
+        pm.append((a, b, sorted(set(bounds_small(rng, a, b, ref)) | set(bounds_for(rng, a, b, ref, 1)))))
+        key = "random:length-ratio>3<=60" if k % 2 else "random:iupac-compatible<=60"
+        classes[key] = classes.get(key, 0) + 1
+    for k in range(n_rand_big // 2):
+        a, b = (ratio_pair if k % 2 else iupac_pair)(rng, 400)
+        ref = dp(a, b)
+        pm.append((a, b, sorted(set(bounds_small(rng, a, b, ref)) | set(bounds_for(rng, a, b, ref, 1)))))
+        key = "random:length-ratio>3<=400" if k % 2 else "random:iupac-compatible<=400"
+        classes[key] = classes.get(key, 0) + 1
     rcases = with_sym(pm)
     robs = ctx.vh_robust("c09", [dict(a=c["a"], b=c["b"], ms=c["ms"]) for c in rcases], timeout=1200, one_timeout=30)
     oracle(ctx, rcases, robs, "random", stats)
@@ -913,6 +1248,66 @@ def run(ctx, broken):
     sizes["d1 exhaustive<=%d" % n_d1] = nd1
     nontriv_count[0] += sum(1 for x in d1seqs if len(x) >= 2) ** 2 - sum(1 for x in d1seqs if len(x) >= 2) if n_d1 > n_ex else 0
     timing["d1all"] = round(time.time() - t0, 1)
+
+    # ---- 6. FastLCSEGFScoreByte called directly on raw bytes (upper / mixed case, bytes that are no letters), both modes,
+    #         with scratch buffers of chosen capacity, length and stale content; oracle + correspondence with the model
+    bcases = gen_byte(rng, ctx.quick)
+    bobs = ctx.vh_robust("c09", [dict(kind="byte", ba=c["ba"], bb=c["bb"], ms=c["ms"], bufs=c["bufs"]) for c in bcases], timeout=600, one_timeout=30)
+    eval_byte(ctx, bcases, bobs, stats)
+    bterms, bowner = [], []
+    for i, (c, o) in enumerate(zip(bcases, bobs)):
+        classes[c["cls"]] = classes.get(c["cls"], 0) + 1
+        if len(c["ba"]) >= 2 and len(c["bb"]) >= 2 and fold(c["ba"]) != fold(c["bb"]):
+            nontriv.add(("byte", tuple(c["ba"]), tuple(c["bb"]), tuple(c["ms"])))
+        if c["coq"] and o.get("kind") != "crash" and not any(r[3] == -99 for r in o["r"]):
+            for t in byte_terms(c, o):
+                bterms.append(t)
+                bowner.append(i)
+    sizes["byte-level cases"] = len(bcases)
+    sizes["byte-level kernel calls"] = sum(len(o.get("r", [])) for o in bobs)
+    caps = {}
+    for c in bcases:
+        for bs in c["bufs"]:
+            for m in c["ms"]:
+                for egf in (False, True):
+                    w = band_width(len(c["ba"]), len(c["bb"]), m, egf)
+                    k = "calls with capacity " + ("unused (answer before the buffer)" if w is None else "< 2*width (replaced)" if bs["cap"] < 2 * w
+                                                   else "= 2*width" if bs["cap"] == 2 * w else "> 2*width")
+                    caps[k] = caps.get(k, 0) + 1
+            k = "buffers of length " + ("0" if bs["len"] == 0 else "= capacity" if bs["len"] == bs["cap"] else "in between")
+            caps[k] = caps.get(k, 0) + 1
+            k = "stale content " + ("zeros" if bs["pat"] == [0] else "all-ones" if bs["pat"] == [M64] else "largest in-band word" if bs["pat"] == [BEST_WORD] else "other patterns")
+            caps[k] = caps.get(k, 0) + 1
+    # ---- 7. decodeValues and the accessors without a caller (_isout, _lpath) on chosen words
+    ws = gen_words(rng, ctx.quick)
+    wobs = ctx.vh_robust("c09", [dict(kind="words", ws=ws)], timeout=60)[0]
+    _, wterms = eval_words(ctx, ws, wobs, stats)
+    bmism = []
+    if not os.environ.get("C09_NOCOQ"):
+        bad, err = ctx.correspond("bytes", IMPORTS, bterms + wterms, fn="mismatches_sl", shard=150)
+        if bad is None:
+            broken.append(dict(kind="correspondence", detail=err))
+        else:
+            bmism = bad
+    ctx.cov["model_vs_impl_mismatches_bytes"] = len(bmism)
+    if bmism and not ctx.violations:
+        k = bmism[0]
+        if k < len(bterms):
+            c = bcases[bowner[k]]
+            first = dict(kind="byte", ba=c["ba"], bb=c["bb"], ms=c["ms"], bufs=c["bufs"])
+            impl = dict(r=bobs[bowner[k]].get("r"))
+        else:
+            first = dict(kind="words", ws=[ws[k - len(bterms)]])
+            impl = dict(r=wobs.get("r", [])[k - len(bterms)])
+        broken.append(dict(kind="correspondence", name="corr:C09/byte-kernel", first_diverging_case=first, term=(bterms + wterms)[k][:300],
+                           implementation=impl, n_diverging=len(bmism)))
+    timing["bytes+words+coq"] = round(time.time() - t0, 1)
+
+    # ---- outside the property, recorded for the reader: the D1Or0 shortcut of obitag / obirefidx (bounds 0 and 1) compares bytes,
+    #      the LCS kernel compares IUPAC sets: on an ambiguous reference the two paths give different distances
+    so = ctx.vh_robust("c09", [dict(a="acgtacgtac", b="acgtncgtac", ms=[1])], timeout=60)[0]
+    if so.get("r"):
+        ctx.cov["outside_property_shortcut"] = dict(a="acgtacgtac", b="acgtncgtac", bound=1, FastLCSScore=so["r"][0][1:3], D1Or0_verdict=so["d"][0])
     ctx.cov["timing_cumulative_s"] = timing
     ctx.cov["evaluations"] = stats["evals"]
     ctx.cov["distinct_nontrivial"] = len(nontriv) + nontriv_count[0]
@@ -921,7 +1316,8 @@ def run(ctx, broken):
                        "distinct = distinct (a, b, bounds); exhaustive part: all ordered pairs over {a,c,g,t} of length <= %d x bounds -1..%d; "
                        "D1Or0-only exhaustive part (counted when it goes beyond the former): all ordered pairs of distinct sequences with >= 2 symbols "
                        "of length <= %d; a call-site run counts as one case" % (n_ex, n_ex + 1, n_d1))
-    ctx.cov["distribution"] = dict(sizes=sizes, answers=stats["dist"], coq_terms=len(terms))
+    ctx.cov["distribution"] = dict(sizes=sizes, generator_classes=classes, scratch_buffers=caps, answers=stats["dist"],
+                                   coq_terms=len(terms) + len(bterms) + len(wterms))
     ctx.samples = [dict(case=dict(a=c["a"], b=c["b"], ms=c["ms"]), implementation=dict(r=o.get("r"), d=o.get("d")))
                    for c, o in list(zip(ccases, cobs))[:2] + list(zip(rcases, robs))[-2:]]
     if mism and not ctx.violations:
@@ -951,6 +1347,23 @@ def replay(ctx, rp):
         big = c["unit"] * c["repeat"]
         o = ctx.vh_robust("c09", [dict(a=big, b=big, ms=c["ms"])], timeout=180, one_timeout=90)[0]
         print("replay: two identical sequences of %d symbols ->" % len(big), o.get("r"), "expected", (len(big), len(big)))
+        return
+    if rp.get("kind") == "byte-call" or (rp.get("first_diverging_case") or {}).get("kind") == "byte":
+        c = rp.get("case") or rp["first_diverging_case"]
+        c = dict(c, cls="replay", coq=True)
+        obs = ctx.vh_robust("c09", [dict(kind="byte", ba=c["ba"], bb=c["bb"], ms=c["ms"], bufs=c["bufs"])], timeout=120, one_timeout=60)
+        stats = dict(evals=0, dist={})
+        n = eval_byte(ctx, [c], obs, stats, "replay")
+        fa, fb = fold(c["ba"]), fold(c["bb"])
+        print("replay: FastLCSEGFScoreByte on", c["ba"], c["bb"], "(folded %r %r) bounds %s ->" % (fa, fb, c["ms"]), obs[0].get("r"),
+              "reference", dp(fa, fb), "egf reference", dp(fa, fb, True), "ORACLE-VIOLATIONS=%d" % n)
+        return
+    if rp.get("kind") == "words" or (rp.get("first_diverging_case") or {}).get("kind") == "words":
+        c = rp.get("case") or rp["first_diverging_case"]
+        obs = ctx.vh_robust("c09", [dict(kind="words", ws=c["ws"])], timeout=60)[0]
+        stats = dict(evals=0, dist={})
+        n, _ = eval_words(ctx, c["ws"], obs, stats)
+        print("replay: packed words", c["ws"], "->", obs.get("r"), "expected (score, length, out)", [py_decode(w) for w in c["ws"]], "ORACLE-VIOLATIONS=%d" % n)
         return
     if rp.get("kind") == "call-site-run":
         c = rp["case"]
